@@ -51,6 +51,10 @@ Definition max_version_key (i : N) (tk : bytes) : bytes :=
 Definition key_range (i : N) : bytes * bytes :=
   (n_dataKeyPrefix :: iid_bytes i, n_dataKeyPrefix :: iid_bytes (id_succ i)).
 Definition data_instance_key_range (i : N) : bytes * bytes := key_range i.
+(* the same two functions with repo_patches/C06-3-fix: at MaxInstanceID the range ends at the
+   first key after the data key space, []byte{dataKeyPrefix + 1} *)
+Definition key_range_fixed (i : N) : bytes * bytes :=
+  if i =? n_MaxInstanceID then (n_dataKeyPrefix :: iid_bytes i, [n_dataKeyPrefix + 1]) else key_range i.
 (* DataKeyRange, MinDataKey, MaxDataKey *)
 Definition data_key_range : bytes * bytes :=
   (n_dataKeyPrefix :: iid_bytes 0, n_dataKeyPrefix :: iid_bytes n_MaxInstanceID).
@@ -75,6 +79,7 @@ Definition delete_all_range_versioned (i : N) : bytes * bytes :=
   (min_version_key i (min_tkey n_TKeyMinClass), max_version_key i (max_tkey n_TKeyMaxClass)).
 (* ... and for any other context (storage.DeleteDataInstance passes a bare *DataContext) *)
 Definition delete_all_range_unversioned (i : N) : bytes * bytes := key_range i.
+Definition delete_all_range_unversioned_fixed (i : N) : bytes * bytes := key_range_fixed i.
 
 (* getNextInstance / getInstanceSizes / getKeyUsage: [constructDataKey(cur, 0, 0, minTKey), constructDataKey(cur+1, 0, 0, minTKey)) *)
 Definition instance_size_range (i : N) : bytes * bytes :=
